@@ -162,7 +162,8 @@ def load_root(cache: t.Any, rk: gkdi.RootKey) -> None:
         kdf_algorithm="SP800_108_CTR_HMAC",
         kdf_parameters=gkdi.pack_kdf_params(rk.hash_name),
         secret_algorithm=rk.secret_alg,
-        secret_parameters=rk.params() if rk.secret_alg == "DH" else (rk.secret_params or None),
+        # (a mutable buffer is an accepted argument type: the DH parameters are handed over as a bytearray)
+        secret_parameters=bytearray(rk.params()) if rk.secret_alg == "DH" else (rk.secret_params or None),
         private_key_length=rk.priv_len,
         public_key_length=rk.pub_len,
     )
